@@ -428,10 +428,21 @@ class PPO(RLAlgorithm):
                 batch_values = batch_values.squeeze()
 
                 if len(minibatch_idxs) > 1:
-                    # squeeze() removed the action dimension of one-dimensional Box actions
-                    if isinstance(
-                        self.action_space, spaces.Box
-                    ) and self.action_space.shape == (1,):
+                    # squeeze() removed the action dimension of single-component actions
+                    if (
+                        (
+                            isinstance(self.action_space, spaces.Box)
+                            and self.action_space.shape == (1,)
+                        )
+                        or (
+                            isinstance(self.action_space, spaces.MultiBinary)
+                            and self.action_space.n == 1
+                        )
+                        or (
+                            isinstance(self.action_space, spaces.MultiDiscrete)
+                            and len(self.action_space.nvec) == 1
+                        )
+                    ):
                         batch_actions = batch_actions.unsqueeze(1)
 
                     log_prob, entropy, value = self.evaluate_actions(
